@@ -349,7 +349,7 @@ CMP = [("t", "t", int), ("c", "c", lambda v: v == "1"), ("wc", "wc", lambda v: v
 def follow_query(world, gran, tr=None):
     tr = tr or translate(world)
     adj = world.adj
-    q = "follow %s %d %d %d 1 %s %s" % (
+    q = "follow %s %d %d %d 1 111 %s %s" % (
         gran, adj.outbuf_high_watermark, adj.send_bytes, adj.channel_request_lookahead,
         progs_token(tr["progs"]), ",".join(tr["events"]) if tr["events"] else "e:env:r:0")
     return q, tr
@@ -580,6 +580,10 @@ EXPECTED_SHAPE = {'HTTPChannel._flush_exception': ['(self,flush,do_close=True)',
                                                      'if(self.total_outbufs_len > self.adj.outbuf_high_watermark){',
                                                      'R:total_outbufs_len',
                                                      'with(self.outbuf_lock){',
+                                                     'if(not self.connected){',
+                                                     'R:connected',
+                                                     'return',
+                                                     '}',
                                                      'call:self._flush_exception(self._flush_some,do_close=False)',
                                                      'if(exception){',
                                                      'call:self.server.pull_trigger()',
@@ -641,7 +645,7 @@ EXPECTED_SHAPE = {'HTTPChannel._flush_exception': ['(self,flush,do_close=True)',
                                          'call:self.outbuf_lock.acquire(False)',
                                          'try{',
                                          'call:self._flush_some(do_close=do_close)',
-                                         'if(self.total_outbufs_len < self.adj.outbuf_high_watermark){',
+                                         'if(self.total_outbufs_len <= self.adj.outbuf_high_watermark){',
                                          'R:total_outbufs_len',
                                          'call:self.outbuf_lock.notify()',
                                          '}',
@@ -685,7 +689,8 @@ EXPECTED_SHAPE = {'HTTPChannel._flush_exception': ['(self,flush,do_close=True)',
                               'let:flush=self._flush_some_if_lockable',
                               '}',
                               'else{',
-                              'if(self.total_outbufs_len >= self.adj.send_bytes){',
+                              'if(self.total_outbufs_len >= self.adj.send_bytes or self.total_outbufs_len > self.adj.outbuf_high_watermark){',
+                              'R:total_outbufs_len',
                               'R:total_outbufs_len',
                               'let:flush=self._flush_some_if_lockable',
                               '}',
@@ -1024,17 +1029,10 @@ def monitors(world, verdict):
         progress_stopped = verdict == "blocked" or (verdict == "overrun" and _no_progress(world))
         if not fin["c"]:
             if verdict == "blocked":
-                kf = "kf_c12_tail_race" if (fin["n"] >= 2 and adj.channel_request_lookahead >= 1) else None
-                out.append(("abort-parked-after-close", kf,
+                out.append(("abort-parked-after-close", None,
                             "a worker waits on outbuf_lock although connected is False (channel in map: %s, requests: %d)" % (fin["im"], fin["n"])))
         elif progress_stopped and fin["rd"] and not fin["gn"]:
-            if hw == 0 and fin["t"] == 0:
-                kf = "kf_c12_hw_zero"
-            elif 0 < fin["t"] < sb:
-                kf = "kf_c12_below_send_bytes"
-            else:
-                kf = None
-            out.append(("release-parked-%s" % ("quiescent" if verdict == "blocked" else "spinning"), kf,
+            out.append(("release-parked-%s" % ("quiescent" if verdict == "blocked" else "spinning"), None,
                         "a worker waits on outbuf_lock for ever: total=%d high_watermark=%d send_bytes=%d, the client reads, %s" % (
                             fin["t"], hw, sb, "the I/O thread is blocked in select" if verdict == "blocked" else "the I/O thread spins without sending")))
     # (c) no write is accepted once connected is False
